@@ -261,7 +261,19 @@ func mutateBytes(r *rng, s string) string {
 // tok turns a wire value into a single blank-free answer token.
 func tok(s string) string { return strings.ReplaceAll(s, " ", ",") }
 
-func c10Go(v string) (ans string, rw *rules.DNSRewrite) {
+func isASCII(s string) bool {
+	for i := 0; i < len(s); i++ {
+		if s[i] >= 0x80 {
+			return false
+		}
+	}
+
+	return true
+}
+
+// c10Go returns the implementation's answer for v, the rewrite loadDNSRewrite
+// returned and the rewrite NewNetworkRule stored (nil if none / not applicable).
+func c10Go(v string) (ans string, rw, viaRule *rules.DNSRewrite) {
 	ans = guardStr(func() string {
 		var err error
 		rw, err = rules.VerifLoadDNSRewrite(v)
@@ -277,22 +289,25 @@ func c10Go(v string) (ans string, rw *rules.DNSRewrite) {
 		return tok(wrewrite(rw))
 	})
 	if ans == "PANIC" || strings.ContainsAny(v, ",$\\") {
-		return ans, rw
+		return ans, rw, nil
 	}
 	via := guardStr(func() string {
 		f, err := rules.NewNetworkRule("||h^$dnsrewrite="+v, 1)
 		if err != nil {
 			return "err"
 		}
+		viaRule = f.DNSRewrite
 
 		return tok(wrewrite(f.DNSRewrite))
 	})
-	// a rule can be rejected for reasons outside the value (none known for this pattern)
-	if via != ans {
-		return "NETRULE-MISMATCH:" + via + "/" + ans, rw
+	// The option splitter of NewNetworkRule (splitWithEscapeCharacter) keeps only the first byte
+	// of every multi-byte character, so the value loadDNSRewrite sees equals v for ASCII v only;
+	// for other v only the SHAPE of the stored rewrite is checked (c10.shape).
+	if via != ans && (isASCII(v) || via == "PANIC") {
+		return "NETRULE-MISMATCH:" + via + "/" + ans, rw, viaRule
 	}
 
-	return ans, rw
+	return ans, rw, viaRule
 }
 
 func genC10(r *rng, n int, w *bufio.Writer) {
@@ -301,7 +316,7 @@ func genC10(r *rng, n int, w *bufio.Writer) {
 		if r.chance(1, 5) {
 			v = mutateBytes(r, v)
 		}
-		ans, rw := c10Go(v)
+		ans, rw, viaRule := c10Go(v)
 		cands := []string{v}
 		if parts := strings.SplitN(v, ";", 3); len(parts) == 3 {
 			cands = append(cands, parts[2])
@@ -309,6 +324,9 @@ func genC10(r *rng, n int, w *bufio.Writer) {
 		fmt.Fprintf(w, "c10.dnsrw %s %s = %s ## %q\n", wb(v), waddrs(cands...), ans, v)
 		if rw != nil {
 			fmt.Fprintf(w, "c10.shape %s = T ## %q\n", wrewrite(rw), v)
+		}
+		if viaRule != nil && !isASCII(v) {
+			fmt.Fprintf(w, "c10.shape %s = T ## via NewNetworkRule: %q\n", wrewrite(viaRule), v)
 		}
 	}
 }
